@@ -200,6 +200,10 @@ def coq_cases(ctx, tag, imports, typ, run_fn, terms, shard=400, ordered=False):
     Returns (list of global indices that mismatch, error text or None)."""
     d = os.path.join(COQ, 'cases')
     os.makedirs(d, exist_ok=True)
+    # the case files import these modules: make sure their .vo exist
+    ok, log = coq_make(['Base/Corr.vo'] + [i.replace('.', '/') + '.vo' for i in imports])
+    if not ok:
+        return [], 'coq build of the modules needed by the cases failed: ' + log[-1500:]
     for f in os.listdir(d):
         if f.startswith(tag + '_'):
             os.remove(os.path.join(d, f))
